@@ -152,6 +152,10 @@ class Repo:
         from . import align
 
         mutable = align.mutable_attributes(trees.values())
+        from . import paths, purity
+
+        self.purity = purity.Purity(trees)
+        paths.PURITY = self.purity
         for name, (path, src) in srcs.items():
             self.modules[name] = Module(name, path, src, trees[name], mutable)
         self._const_cache: dict[tuple[str, str], object] = {}
